@@ -357,7 +357,7 @@ func (r *aRun) readRecords() (full []*aSentRec, partial []*aSentRec) {
 	return
 }
 
-func stampOf(sr *aSentRec) string { return fmt.Sprintf("c%d.n%d", sr.client, sr.seq) }
+func stampOf(sr *aSentRec) string { return fmt.Sprintf("c%d.n%d#", sr.client, sr.seq) }
 
 // eventStamp extracts the record stamp from a delivered event
 func eventStamp(e *forwardprotocol.EventEntry) string {
